@@ -187,6 +187,21 @@ fn check_tag_parse(acc: &mut Acc) {
         cands.push(format!("{n} "));
     }
     cands.extend(["any", "x", "my-tag", "my_tag", "Last-Modified"].map(String::from));
+    // known names with one letter replaced by a non-ASCII character, among them the ones Unicode
+    // case mapping folds onto ASCII letters (KELVIN SIGN -> k, LONG S -> S, dotless / dotted I):
+    // a lookup that lower- or upper-cases before it validates would take them for the known name
+    for (_, n) in named_tags() {
+        for (pos, _) in n.char_indices() {
+            for sub in ["\u{212a}", "\u{17f}", "\u{131}", "\u{130}", "\u{212b}", "\u{ff21}", "\u{e9}"] {
+                let mut c = String::with_capacity(n.len() + 3);
+                c.push_str(&n[..pos]);
+                c.push_str(sub);
+                c.push_str(&n[pos + 1..]);
+                cands.push(c.clone());
+                cands.push(c.to_lowercase());
+            }
+        }
+    }
     cands.extend(strings_over(&["a", "Z", "_", "-", "0", " ", ":", "\u{e9}", "\n"], 2));
     cands.sort();
     cands.dedup();
@@ -312,7 +327,7 @@ pub fn run(tier: Tier) -> i32 {
     let mut cov = Coverage::default();
     cov.evaluations = acc.evaluations;
     cov.distinct_nontrivial = acc.nontrivial;
-    cov.rule = "complete enumeration: all ordered pairs over {31 named tags} U {Other(name) for each name as is / lower / upper / first letter flipped} U {any, x}; all ordered pairs of the analogous subsystem domain; every candidate tag string (name variants, name+x, name minus last letter, all strings of length <= 2 over 9 byte classes); every subsystem name (14 + unknown + wrong-case spellings) sent as an idle notification through the real client; non-trivial = pairs of distinct values with equal names, invalid or known-name parse inputs, event names".to_string();
+    cov.rule = "complete enumeration: all ordered pairs over {31 named tags} U {Other(name) for each name as is / lower / upper / first letter flipped} U {any, x}; all ordered pairs of the analogous subsystem domain; every candidate tag string (name variants, name+x, name minus last letter, every name with one letter replaced by each of 7 non-ASCII characters incl. those Unicode case mapping folds onto ASCII, all strings of length <= 2 over 9 byte classes); every subsystem name (14 + unknown + wrong-case spellings) sent as an idle notification through the real client; non-trivial = pairs of distinct values with equal names, invalid or known-name parse inputs, event names".to_string();
     cov.states = acc.evaluations;
     cov.transitions = acc.transitions;
     cov.traces = acc.evaluations;
